@@ -6,7 +6,9 @@ use crate::app::attr::Attribute;
 use crate::app::control::CommandStatus;
 use crate::app::parse::options::ParseOptions;
 use crate::app::variations::{Group12Var1, Group41Var1, Group41Var2, Group41Var3, Group41Var4};
-use crate::app::{BufferSize, FunctionCode, Listener, MaybeAsync, RequestHeader, Sequence, Timeout, Timestamp};
+use crate::app::{
+    BufferSize, FunctionCode, Listener, MaybeAsync, RequestHeader, Sequence, Timeout, Timestamp,
+};
 use crate::link::reader::LinkModes;
 use crate::link::{EndpointAddress, LinkErrorMode, LinkReadMode};
 use crate::outstation::database::*;
@@ -209,7 +211,9 @@ impl Mock {
         let mut g = self.0.lock().unwrap_or_else(|e| e.into_inner());
         let s = g.taken;
         g.taken = g.log.len();
-        (s..g.log.len()).map(|i| (g.ords[i], g.log[i].0, g.log[i].1.clone())).collect()
+        (s..g.log.len())
+            .map(|i| (g.ords[i], g.log[i].0, g.log[i].1.clone()))
+            .collect()
     }
     pub fn all(&self) -> Vec<(u64, Ev)> {
         self.0.lock().unwrap_or_else(|e| e.into_inner()).log.clone()
@@ -228,7 +232,9 @@ fn sleep_async(ms: u64) -> MaybeAsync<()> {
     if ms == 0 {
         MaybeAsync::ready(())
     } else {
-        MaybeAsync::asynchronous(async move { tokio::time::sleep(std::time::Duration::from_millis(ms)).await })
+        MaybeAsync::asynchronous(async move {
+            tokio::time::sleep(std::time::Duration::from_millis(ms)).await
+        })
     }
 }
 
@@ -251,7 +257,12 @@ impl OutstationApplication for Mock {
         self.push(Ev::WarmRestart);
         self.script(|s| s.restart_delay)
     }
-    fn freeze_counter(&mut self, indices: FreezeIndices, freeze_type: FreezeType, _db: &mut DatabaseHandle) -> Result<(), RequestError> {
+    fn freeze_counter(
+        &mut self,
+        indices: FreezeIndices,
+        freeze_type: FreezeType,
+        _db: &mut DatabaseHandle,
+    ) -> Result<(), RequestError> {
         self.push(Ev::Freeze(format!("{indices:?} {freeze_type:?}")));
         self.script(|s| s.freeze_result)
     }
@@ -333,51 +344,148 @@ fn op_code(t: OperateType) -> u8 {
 
 impl ControlSupport<Group12Var1> for Mock {
     fn select(&mut self, c: Group12Var1, index: u16, _: &mut DatabaseHandle) -> CommandStatus {
-        self.push(Ev::Select(12, 1, index, ra::crob(c.code.as_u8(), c.count, c.on_time, c.off_time, c.status.as_u8())));
+        self.push(Ev::Select(
+            12,
+            1,
+            index,
+            ra::crob(
+                c.code.as_u8(),
+                c.count,
+                c.on_time,
+                c.off_time,
+                c.status.as_u8(),
+            ),
+        ));
         self.status_for(index)
     }
-    fn operate(&mut self, c: Group12Var1, index: u16, t: OperateType, _: &mut DatabaseHandle) -> CommandStatus {
-        self.push(Ev::Operate(12, 1, index, ra::crob(c.code.as_u8(), c.count, c.on_time, c.off_time, c.status.as_u8()), op_code(t)));
+    fn operate(
+        &mut self,
+        c: Group12Var1,
+        index: u16,
+        t: OperateType,
+        _: &mut DatabaseHandle,
+    ) -> CommandStatus {
+        self.push(Ev::Operate(
+            12,
+            1,
+            index,
+            ra::crob(
+                c.code.as_u8(),
+                c.count,
+                c.on_time,
+                c.off_time,
+                c.status.as_u8(),
+            ),
+            op_code(t),
+        ));
         self.status_for(index)
     }
 }
 impl ControlSupport<Group41Var1> for Mock {
     fn select(&mut self, c: Group41Var1, index: u16, _: &mut DatabaseHandle) -> CommandStatus {
-        self.push(Ev::Select(41, 1, index, ra::ao_i32(c.value, c.status.as_u8())));
+        self.push(Ev::Select(
+            41,
+            1,
+            index,
+            ra::ao_i32(c.value, c.status.as_u8()),
+        ));
         self.status_for(index)
     }
-    fn operate(&mut self, c: Group41Var1, index: u16, t: OperateType, _: &mut DatabaseHandle) -> CommandStatus {
-        self.push(Ev::Operate(41, 1, index, ra::ao_i32(c.value, c.status.as_u8()), op_code(t)));
+    fn operate(
+        &mut self,
+        c: Group41Var1,
+        index: u16,
+        t: OperateType,
+        _: &mut DatabaseHandle,
+    ) -> CommandStatus {
+        self.push(Ev::Operate(
+            41,
+            1,
+            index,
+            ra::ao_i32(c.value, c.status.as_u8()),
+            op_code(t),
+        ));
         self.status_for(index)
     }
 }
 impl ControlSupport<Group41Var2> for Mock {
     fn select(&mut self, c: Group41Var2, index: u16, _: &mut DatabaseHandle) -> CommandStatus {
-        self.push(Ev::Select(41, 2, index, ra::ao_i16(c.value, c.status.as_u8())));
+        self.push(Ev::Select(
+            41,
+            2,
+            index,
+            ra::ao_i16(c.value, c.status.as_u8()),
+        ));
         self.status_for(index)
     }
-    fn operate(&mut self, c: Group41Var2, index: u16, t: OperateType, _: &mut DatabaseHandle) -> CommandStatus {
-        self.push(Ev::Operate(41, 2, index, ra::ao_i16(c.value, c.status.as_u8()), op_code(t)));
+    fn operate(
+        &mut self,
+        c: Group41Var2,
+        index: u16,
+        t: OperateType,
+        _: &mut DatabaseHandle,
+    ) -> CommandStatus {
+        self.push(Ev::Operate(
+            41,
+            2,
+            index,
+            ra::ao_i16(c.value, c.status.as_u8()),
+            op_code(t),
+        ));
         self.status_for(index)
     }
 }
 impl ControlSupport<Group41Var3> for Mock {
     fn select(&mut self, c: Group41Var3, index: u16, _: &mut DatabaseHandle) -> CommandStatus {
-        self.push(Ev::Select(41, 3, index, ra::ao_f32(c.value, c.status.as_u8())));
+        self.push(Ev::Select(
+            41,
+            3,
+            index,
+            ra::ao_f32(c.value, c.status.as_u8()),
+        ));
         self.status_for(index)
     }
-    fn operate(&mut self, c: Group41Var3, index: u16, t: OperateType, _: &mut DatabaseHandle) -> CommandStatus {
-        self.push(Ev::Operate(41, 3, index, ra::ao_f32(c.value, c.status.as_u8()), op_code(t)));
+    fn operate(
+        &mut self,
+        c: Group41Var3,
+        index: u16,
+        t: OperateType,
+        _: &mut DatabaseHandle,
+    ) -> CommandStatus {
+        self.push(Ev::Operate(
+            41,
+            3,
+            index,
+            ra::ao_f32(c.value, c.status.as_u8()),
+            op_code(t),
+        ));
         self.status_for(index)
     }
 }
 impl ControlSupport<Group41Var4> for Mock {
     fn select(&mut self, c: Group41Var4, index: u16, _: &mut DatabaseHandle) -> CommandStatus {
-        self.push(Ev::Select(41, 4, index, ra::ao_f64(c.value, c.status.as_u8())));
+        self.push(Ev::Select(
+            41,
+            4,
+            index,
+            ra::ao_f64(c.value, c.status.as_u8()),
+        ));
         self.status_for(index)
     }
-    fn operate(&mut self, c: Group41Var4, index: u16, t: OperateType, _: &mut DatabaseHandle) -> CommandStatus {
-        self.push(Ev::Operate(41, 4, index, ra::ao_f64(c.value, c.status.as_u8()), op_code(t)));
+    fn operate(
+        &mut self,
+        c: Group41Var4,
+        index: u16,
+        t: OperateType,
+        _: &mut DatabaseHandle,
+    ) -> CommandStatus {
+        self.push(Ev::Operate(
+            41,
+            4,
+            index,
+            ra::ao_f64(c.value, c.status.as_u8()),
+            op_code(t),
+        ));
         self.status_for(index)
     }
 }
@@ -425,7 +533,16 @@ pub fn make_config(c: &OutCfg) -> OutstationConfig {
     let mut config = OutstationConfig::new(
         EndpointAddress::try_new(c.out_addr).unwrap(),
         EndpointAddress::try_new(c.master_addr).unwrap(),
-        EventBufferConfig::new(c.event_cfg[0], c.event_cfg[1], c.event_cfg[2], c.event_cfg[3], c.event_cfg[4], c.event_cfg[5], c.event_cfg[6], c.event_cfg[7]),
+        EventBufferConfig::new(
+            c.event_cfg[0],
+            c.event_cfg[1],
+            c.event_cfg[2],
+            c.event_cfg[3],
+            c.event_cfg[4],
+            c.event_cfg[5],
+            c.event_cfg[6],
+            c.event_cfg[7],
+        ),
     );
     config.solicited_buffer_size = BufferSize::new(c.sol_tx).unwrap();
     config.unsolicited_buffer_size = BufferSize::new(c.unsol_tx).unwrap();
@@ -433,7 +550,13 @@ pub fn make_config(c: &OutCfg) -> OutstationConfig {
     config.decode_level = decode_level(c.decode);
     config.confirm_timeout = Timeout::from_millis(c.confirm_timeout_ms).unwrap();
     config.select_timeout = Timeout::from_millis(c.select_timeout_ms).unwrap();
-    let f = |b: bool| if b { Feature::Enabled } else { Feature::Disabled };
+    let f = |b: bool| {
+        if b {
+            Feature::Enabled
+        } else {
+            Feature::Disabled
+        }
+    };
     config.features.self_address = f(c.self_address);
     config.features.broadcast = f(c.broadcast);
     config.features.unsolicited = f(c.unsolicited);
@@ -456,16 +579,28 @@ impl OutSim {
     /// `setup` runs on the database before the first connection
     pub async fn start_with(cfg: OutCfg, setup: impl FnOnce(&mut Database)) -> OutSim {
         let clock = Clock::start();
-        let mock = Mock(Arc::new(Mutex::new(MockShared { log: vec![], ords: vec![], taken: 0, script: Script::default(), clock })));
+        let mock = Mock(Arc::new(Mutex::new(MockShared {
+            log: vec![],
+            ords: vec![],
+            taken: 0,
+            script: Script::default(),
+            clock,
+        })));
         let config = make_config(&cfg);
         let modes = LinkModes {
-            error_mode: if cfg.discard { LinkErrorMode::Discard } else { LinkErrorMode::Close },
+            error_mode: if cfg.discard {
+                LinkErrorMode::Discard
+            } else {
+                LinkErrorMode::Close
+            },
             read_mode: LinkReadMode::Stream,
         };
         let (task, handle) = OutstationTask::create(
             Enabled::Yes,
             modes,
-            ParseOptions { parse_zero_length_strings: cfg.zero_len_strings },
+            ParseOptions {
+                parse_zero_length_strings: cfg.zero_len_strings,
+            },
             config,
             PhysAddr::None,
             Box::new(mock.clone()),
@@ -478,7 +613,8 @@ impl OutSim {
                 s(db)
             }
         });
-        let (mut server, sessions) = ServerTask::create(Session::outstation(task), Box::new(mock.clone()));
+        let (mut server, sessions) =
+            ServerTask::create(Session::outstation(task), Box::new(mock.clone()));
         let join = tokio::spawn(async move {
             let _ = server.run().await;
         });
@@ -549,7 +685,12 @@ impl OutSim {
         let mut out = vec![];
         for p in self.old_pipes.clone() {
             for t in p.take_tx() {
-                out.push(Rx::Garbage { ord: t.ord, t_ms: t.t_ms, why: "write on a connection that was replaced".into(), bytes: t.bytes });
+                out.push(Rx::Garbage {
+                    ord: t.ord,
+                    t_ms: t.t_ms,
+                    why: "write on a connection that was replaced".into(),
+                    bytes: t.bytes,
+                });
             }
         }
         for t in self.pipe.take_tx() {
